@@ -996,9 +996,6 @@ theorem Inv.reorg (hE : ExecLaw exec txsOf) (hU : UKeyed U) {N : Node} (h : Inv 
         intro t
         rw [mem_sortDedup, List.mem_filter]
         simp only [Bool.not_eq_true', List.any_eq_false, List.contains_eq_mem, decide_eq_true_eq, not_exists, not_and]
-        constructor
-        · rintro ⟨a, b⟩; exact ⟨a, fun x hx => by simpa using b x hx⟩
-        · rintro ⟨a, b⟩; exact ⟨a, fun x hx => by simpa using b x hx⟩
 
 end
 
